@@ -310,3 +310,20 @@ pub fn is_sticky(cid: u8) -> bool {
 pub fn freq_of(p: &[u8]) -> u32 {
     ((p[2] as u32) << 16 | (p[1] as u32) << 8 | p[0] as u32) * 100
 }
+
+/// builder J: RP002 default (join) channel frequencies of the dynamic plans — the channels every
+/// end-device SHALL implement and on which JoinRequests are sent (EU868 §2.4.2, EU433 §2.7.2,
+/// IN865 §2.10.2, AS923 §2.8.2 with the group offsets 0 / −1.80 / −6.60 / −5.90 MHz).  Independent of
+/// the repository's `init_channels`; empty for the fixed plans.
+pub fn default_join_freqs(region: &str) -> Vec<u32> {
+    match region {
+        "EU868" => vec![868_100_000, 868_300_000, 868_500_000],
+        "EU433" => vec![433_175_000, 433_375_000, 433_575_000],
+        "IN865" => vec![865_062_500, 865_402_500, 865_985_000],
+        "AS923_1" => vec![923_200_000, 923_400_000],
+        "AS923_2" => vec![921_400_000, 921_600_000],
+        "AS923_3" => vec![916_600_000, 916_800_000],
+        "AS923_4" => vec![917_300_000, 917_500_000],
+        _ => vec![],
+    }
+}
